@@ -45,11 +45,11 @@ fn py_is_sha(sha: &Py<PyAny>, py: Python) -> PyResult<bool> {
 #[pyfunction]
 fn bisect_find_sha(
     py: Python,
-    start: i32,
-    end: i32,
+    start: i64,
+    end: i64,
     sha: Py<PyBytes>,
     unpack_name: Py<PyAny>,
-) -> PyResult<Option<i32>> {
+) -> PyResult<Option<i64>> {
     // Convert sha_obj to a byte slice
     let sha = sha.as_bytes(py);
     let sha_len = sha.len();
@@ -73,7 +73,8 @@ fn bisect_find_sha(
         if start > end {
             break;
         }
-        let i = (start + end) / 2;
+        // Floor division, like Python's `//`, without overflowing on large indexes.
+        let i = start + (end - start).div_euclid(2);
 
         let file_sha = unpack_name.call1(py, (i,))?;
         if !py_is_sha(&file_sha, py)? {
